@@ -134,6 +134,7 @@ func panicSite() string {
 func (e *Engine) Exec(idx int, op OpSpec, shared any) (out Outcome) {
 	e.FS.SetOp(idx)
 	simrt.OpStart()
+	simrt.TakeDeadlock()
 	w := NewSimWriter(op.Writer)
 	ctx := NewSimCtx(op.Ctx)
 	var data, pristine any
@@ -154,6 +155,9 @@ func (e *Engine) Exec(idx int, op OpSpec, shared any) (out Outcome) {
 			default:
 				out.Panic = fmt.Sprintf("%v @%s", r, panicSite())
 			}
+		}
+		if simrt.TakeDeadlock() {
+			out.Deadlock = true
 		}
 		out.Out = w.Got
 		out.WriterFired = w.Fired
